@@ -286,6 +286,8 @@ def qforall(vs, body, patterns=None):
     """ForAll with explicit patterns; patterns z3 rejects (they contain ite/arith) are dropped one by
     one, falling back to z3's own trigger inference."""
     if patterns:
+        # triggers are simplified first: select(store(a, i, v), i) must be seen as v, or E-matching never fires
+        patterns = [(p if isinstance(p, z3.PatternRef) else z3.simplify(p)) for p in patterns]
         good = [p for p in patterns if _pattern_ok(p, vs)]
         if good:
             try:
